@@ -141,3 +141,14 @@ Fixpoint rdecode (s : str) : option (list item) :=
       end
     else option_map (cons (Lit c)) (rdecode s')
   end.
+
+(* Python slice semantics on the item list (the specification of SigmaString.__getitem__ for
+   in-range indices): negative indices count from the end and are clamped at 0 as in Python, a missing
+   stop means "to the end"; the library may instead reject out-of-range bounds with IndexError. *)
+From Coq Require Import ZArith.
+Definition spec_slice (l : list item) (start0 stop0 : option Z) : option (list item) :=
+  let len := Z.of_nat (length l) in
+  let start := match start0 with Some x => x | None => 0%Z end in
+  let start := Z.max 0 (if (start <? 0)%Z then (len + start)%Z else start) in
+  let stop := Z.max 0 (match stop0 with Some x => if (x <? 0)%Z then (len + x)%Z else x | None => len end) in
+  Some (firstn (Z.to_nat (stop - start)) (skipn (Z.to_nat start) l)).
